@@ -17,7 +17,7 @@ the builder queue (a property of Ord values).
 import re
 
 from facts import short_name
-from kinds import (comparisons, bool_payload_edges, k1_callers, k2_site_guarded,
+from kinds import (rel, comparisons, bool_payload_edges, k1_callers, k2_site_guarded,
                    on_all_success_paths)
 
 CRATES = ["astria_sequencer.lib"]
@@ -94,8 +94,7 @@ def mp2(prog, rep):
         rep.check(be is not None and body.must_pass_edges(set(be[1]), c.bb), "MP2", "insert<=below-limit",
                   "a transaction can be inserted although the account is at its size limit", where)
         # 2 nonce >= current
-        cm = [x for x in comparisons(body) if x.op == "Lt" and x.a == "nonce(ttx)"
-              and x.b == "current_account_nonce"]
+        cm = rel(body, "Lt", r"^nonce\(ttx\)$", r"^current_account_nonce$")
         rep.check(bool(cm) and body.must_pass_edges(set(cm[0].false_edges), c.bb), "MP2",
                   "insert<=nonce>=current",
                   "a transaction with a nonce below the account's current nonce can be inserted",
